@@ -422,6 +422,70 @@ def loop_closure_every_level(ctx, rule='A5'):
            f'before they are complete')
 
 
+def start_closure(ctx, rule='A5u'):
+    """set_start_nodes removes *every* node that no start node derives (its documented contract, and what C02's "nothing
+    unreachable remains" needs): the set handed to the removal contains the complement of a reachability closure that
+    starts at the start nodes and follows derivation edges.  Removing only what floating *root* nodes derive misses
+    derivation cycles nothing derives (they have no root) - finding F23."""
+    fn = ctx.fn(f'{BASIC}.set_start_nodes')
+    unit = unit_functions(ctx.prog, fn)
+    start_p = fn.params[1] if len(fn.params) > 1 else None
+    # (1) a worklist closure: a set seeded from the start nodes that grows by the targets of out-edges inside a loop
+    closures = []       # (function, name of the closure set)
+    for u in unit:
+        seeds = {norm(a.targets[0]): a for a in walk_fn(u) if isinstance(a, ast.Assign) and
+                 isinstance(a.targets[0], ast.Name) and isinstance(a.value, ast.Call) and
+                 call_name(a.value) in ('set', 'copy') and
+                 any(isinstance(x, ast.Name) and x.id in u.params for x in ast.walk(a.value))}
+        for w in ast.walk(u.node):
+            if not isinstance(w, (ast.While, ast.For)):
+                continue
+            walks = [c for c in ast.walk(w) if isinstance(c, ast.Call) and
+                     call_name(c) in ('iter_out_edges', 'out_edges', 'successors', 'iter_out_edges_cached')]
+            adds = [c for c in ast.walk(w) if isinstance(c, ast.Call) and call_name(c) in ('add', 'update') and
+                    isinstance(c.func, ast.Attribute) and norm(c.func.value) in seeds]
+            if walks and adds and isinstance(w, ast.While):
+                closures.append((u, norm(adds[0].func.value)))
+    # (2) the complement of that closure (w.r.t. the graph's nodes) enters the set of removed nodes
+    def is_closure_value(e, f_):
+        if isinstance(e, ast.Name):
+            return any(f_ is u and e.id == nm for u, nm in closures)
+        if isinstance(e, ast.Call):
+            h = next((u for u, nm in closures if u.name == call_name(e)), None)
+            return h is not None and any(isinstance(r.value, ast.Name) and r.value.id == nm
+                                         for u, nm in closures if u is h for r in returns_of(h) if r.value is not None)
+        return False
+    comps = []
+    for u in unit:
+        for x in walk_fn(u):
+            if isinstance(x, ast.BinOp) and isinstance(x.op, ast.Sub) and '.nodes' in norm(x.left) and \
+                    is_closure_value(x.right, u):
+                comps.append((u, x))
+            if isinstance(x, ast.Call) and call_name(x) == 'difference' and '.nodes' in norm(x.func.value) and \
+                    x.args and is_closure_value(x.args[0], u):
+                comps.append((u, x))
+            if isinstance(x, (ast.SetComp, ast.ListComp, ast.GeneratorExp)) and '.nodes' in norm(x.generators[0].iter) \
+                    and any(isinstance(i, ast.Compare) and isinstance(i.ops[0], ast.NotIn) and
+                            is_closure_value(i.comparators[0], u) for i in x.generators[0].ifs):
+                comps.append((u, x))
+    removed = {norm(k.value) for c in calls(fn, 'get_for_adjusted') for k in c.keywords if k.arg == 'removed_nodes'}
+    feeds = [(u, x) for u, x in comps for st in walk_fn(u)
+             if (isinstance(st, ast.AugAssign) and isinstance(st.op, ast.BitOr) and norm(st.target) in removed and
+                 any(y is x for y in ast.walk(st.value))) or
+             (isinstance(st, ast.Expr) and isinstance(st.value, ast.Call) and call_name(st.value) == 'update' and
+              norm(st.value.func.value) in removed and any(y is x for y in ast.walk(st.value))) or
+             (isinstance(st, ast.Assign) and norm(st.targets[0]) in removed and any(y is x for y in ast.walk(st.value)))]
+    ok = bool(closures) and bool(feeds)
+    ctx.ob(rule, fkey(fn, rule, 'unreachable-from-start-removed'), ok, fn.where,
+           'every node that cannot be reached from the start nodes over derivation edges is removed (closure from the '
+           'start nodes, complement removed) - also nodes of a derivation cycle that nothing derives, which have no '
+           'floating root to start the removal from',
+           (f'closure in {closures[0][0].qualname}; complement enters `{sorted(removed)[0] if removed else "?"}`'
+            if ok else ('no reachability closure from the start nodes: only what the floating root nodes derive is '
+                        'removed, an underived derivation cycle (and the choices below it) stays in the graph'
+                        if not closures else 'the complement of the closure is not removed')))
+
+
 def check(ctx):
     edges.check_walks(ctx, categories={'derivation', 'default'}, anchors=ANCHORS)
     apply_selection_shape(ctx)
@@ -429,6 +493,7 @@ def check(ctx):
     derive_shape(ctx)
     status_array_shape(ctx)
     loop_closure_every_level(ctx)
+    start_closure(ctx)
     # the graph algorithms memoise in caller-provided cache dictionaries: keys cover what the value depends on
     from ..rules import persist as _psg
     _psg.check_memo_functions(ctx, [f for f in ctx.prog.all_functions() if f.module.name.startswith('adsg_core.graph.')])
@@ -447,6 +512,12 @@ def check(ctx):
 from ..selftest import V  # noqa: E402
 
 VARIANTS = [
+    V('underived-cycles-kept', 'graph/adsg_basic.py',
+      [("        removed_nodes |= set(graph.nodes) - self._get_nodes_derived_from(start_nodes)\n", "")],
+      key='unreachable-from-start-removed'),
+    V('twin-closure-inline-difference-update', 'graph/adsg_basic.py',
+      [("        removed_nodes |= set(graph.nodes) - self._get_nodes_derived_from(start_nodes)\n",
+        "        removed_nodes.update(set(graph.nodes) - self._get_nodes_derived_from(start_nodes))\n")], expect='silent'),
     V('influence-matrix-kept-from-earlier-initialisation', 'graph/adsg.py',
       [("        try:\n            self._influence_matrix = InfluenceMatrix(self)\n        except ValueError:\n            pass\n", "        if self._influence_matrix is None:\n            try:\n                self._influence_matrix = InfluenceMatrix(self)\n            except ValueError:\n                pass\n")], key='always-reassigns'),
     V('floating-roots-removed-independently', 'graph/adsg_basic.py',
